@@ -303,6 +303,27 @@ CHECKS.update({
         'DESIGN.md section 4 C14'),
 })
 
+CHECKS.update({
+    'C18': (
+        'Coq proof (start <= end, stable lexicographic ordering by (start, end) as a sorted permutation, contiguous pieces telescope, prepared data column k = column of piece k\'s cell) + exact rational clipping oracle and vm_compute correspondence of the ordering',
+        'Theorems C18_* prove for every list of path pieces that each listed piece has start <= end, that the listing is '
+        'sorted by (start, end) and is a permutation of the pieces (none lost or invented), that each names the cell of a '
+        'piece, that contiguous pieces telescope to (last end - first start), and that column k of the data prepared for '
+        'plotting is the column of piece k\'s cell.  Per run an exact rational oracle clips every leg of generated simple '
+        'polylines (across, inside / outside ends, bends that leave and re-enter, along a cell edge in either direction, '
+        'through a vertex, missing) against every cell of generated grids and meshes with holes; the implementation\'s '
+        'pieces must cover per cell exactly the same part of the path (coordinates within 1e-9 degrees), lie within their '
+        'cell, name its linear and native index, be listed by increasing distance, share their distance where they meet, '
+        'and be ordered as the model orders the exact positions; prepare_data_array_for_transect is compared with the raw '
+        'array at every depth.',
+        'Trusted: Coq kernel; model Transect.v; the python clipping oracle (exact Fractions).  PARTIAL: containment and '
+        'coverage are decided per run against the oracle with a 1e-9 degree tolerance (GEOS constructs the cut points in '
+        'floating point); metre distances come from cartopy / pyproj projections that are not modelled - only order, '
+        'start <= end and equality where pieces meet are checked on them; cfunits is replaced by a stand-in (udunits2 is '
+        'absent from this sandbox).',
+        'DESIGN.md section 4 C18'),
+})
+
 NOT_YET = 'check not built yet in this session (work in progress; the design in DESIGN.md section 4 applies)'
 
 
